@@ -678,4 +678,43 @@ example : GoodRun (exS1, []) [.add exCloseSweepBlock, .remove] :=
   ⟨⟨_, exClose_good⟩, fun _ _ => ⟨trivial, fun _ _ => trivial⟩⟩
 example : (run (exS1, []) [.add exCloseSweepBlock, .remove]) = some (exS1, []) := by decide
 
+/-! ### Two regression instances (seeded changes C14/2 and C15/1 of the follow-up round)
+
+The view of `funding_double_spent_height`: the code keeps ONE height, the height of the earliest
+block on the best chain that spends a funding input (`get_or_insert` forward; backward it is cleared
+only when it equals the height of the block being disconnected).  `C14_roundtrip`/`C14_best_chain`
+cover it through the whole-list lemma `ds_roundtrip`, whose hypothesis is exactly "the recorded
+height is below the block being connected". -/
+
+/-- funding tx 7 with two inputs; tx 8 double-spends input (1,0) at height 101, tx 9 double-spends
+input (2,0) at height 103; disconnecting only the later block keeps the double spend at 101. -/
+def exDs0 : State := State.init 100 7 0 [(1, 0), (2, 0)]
+def exDsA : List Tx := [{ txid := 8, inputs := [(1, 0)], nOut := 1, kind := .plain }]
+def exDsB : List Tx := [{ txid := 9, inputs := [(2, 0)], nOut := 1, kind := .plain }]
+
+example :
+    ((((addBlock exDs0 exDsA).bind (fun d => addBlock d.1 [])).bind (fun d => addBlock d.1 exDsB)).bind
+        (fun d => removeBlock d.1 exDsB)).map (fun d => (d.1.height, d.1.dsHeight)) =
+      some (102, some 101) ∧
+    (((addBlock exDs0 exDsA).bind (fun d => addBlock d.1 [])).bind (fun d => addBlock d.1 exDsB)).map
+        (fun d => d.1.dsHeight) = some (some 101) := by decide
+
+/-- `closing_swept_height` is cleared when a disconnection un-sweeps *only* an HTLC-related output
+(our own output staying swept): close 20 with our output 0 and HTLC output 1; sweep of our output
+(tx 21), HTLC spend (tx 30), second-level spend (tx 31) in three blocks; disconnecting the last one
+clears the swept height but not `our_output_swept_height`. -/
+def exSw0 : State := exS1
+def exSwClose : List Tx := [{ txid := 20, inputs := [(7, 0)], nOut := 2, kind := .commit (some 0) [1] }]
+def exSwOur : List Tx := [{ txid := 21, inputs := [(20, 0)], nOut := 1, kind := .plain }]
+def exSwHtlc : List Tx := [{ txid := 30, inputs := [(20, 1)], nOut := 1, kind := .plain }]
+def exSwSecond : List Tx := [{ txid := 31, inputs := [(30, 0)], nOut := 1, kind := .plain }]
+
+example :
+    let full := (((addBlock exSw0 exSwClose).bind (fun d => addBlock d.1 exSwOur)).bind
+        (fun d => addBlock d.1 exSwHtlc)).bind (fun d => addBlock d.1 exSwSecond)
+    full.map (fun d => (d.1.closingSweptHeight, d.1.ourSweptHeight)) = some (some 109, some 107) ∧
+    (full.bind (fun d => removeBlock d.1 exSwSecond)).map
+        (fun d => (d.1.closingSweptHeight, d.1.ourSweptHeight, d.1.isClosingSwept)) =
+      some (none, some 107, false) := by decide
+
 end VlsModel.Props.C14
